@@ -16,8 +16,17 @@ def let_inits(fn):
                 if b.get("k") == "Binding":
                     m[b["id"]] = n["init"]
         elif k == "Match":
+            sc = peel(n["scrut"])
             for a in n["arms"]:
-                for b in walk(a["pat"]):
+                p = a["pat"]
+                if sc.get("k") == "Tup" and p.get("k") == "Tuple" and len(p["pats"]) == len(sc["elems"]) and p.get("ddpos") is None:
+                    # `match (a, b) { (x, y) => .. }`: x comes from a, y from b
+                    for sub, el in zip(p["pats"], sc["elems"]):
+                        for b in walk(sub):
+                            if b.get("k") == "Binding":
+                                m.setdefault(b["id"], el)
+                    continue
+                for b in walk(p):
                     if b.get("k") == "Binding":
                         m.setdefault(b["id"], n["scrut"])
     return m
